@@ -339,6 +339,25 @@ func (o *AccountingOracle) check(r *Run, ssn *framework.Session, at string) {
 			wantIdle.SetGPUs(ni.Idle.GPUs())
 			wantRel.SetGPUs(ni.Releasing.GPUs())
 		}
+		if anyShared || len(ni.UsedSharedGPUsMemory) > 0 {
+			// what holds whatever heuristic keeps the whole-GPU counters of a node with shared devices: no counter is
+			// negative, and the devices counted idle plus the devices that certainly are occupied (whole-GPU pods that
+			// are not merely nominated, GPU groups with at least one sharer that is not merely nominated) fit the node
+			occupied := nonPipelined.GPUs()
+			for _, g := range sortedKeys(allocMem) {
+				if allocMem[g] > 0 {
+					occupied++
+				}
+			}
+			total := ni.Allocatable.GPUs()
+			if ni.Idle.GPUs() < -1e-9 || ni.Releasing.GPUs() < -1e-9 || ni.Used.GPUs() < -1e-9 {
+				fail("node_gpu_counter_negative", "node %s (shared GPUs): Idle %v Releasing %v Used %v GPUs", nn, ni.Idle.GPUs(), ni.Releasing.GPUs(), ni.Used.GPUs())
+			} else if ni.Idle.GPUs()+occupied > total+1e-9 {
+				fail("node_idle_gpus_exceed_free_devices", "node %s (shared GPUs): Idle counts %v GPUs but %v of its %v devices are occupied by pods that are not merely nominated", nn, ni.Idle.GPUs(), occupied, total)
+			} else if ni.Idle.GPUs()+occupied < total-1e-9 {
+				fail("node_idle_gpus_lost", "node %s (shared GPUs): Idle counts %v GPUs, %v of its %v devices are occupied by pods that are not merely nominated", nn, ni.Idle.GPUs(), occupied, total)
+			}
+		}
 		if d := resDiff(ni.Used, used); d != "" {
 			fail("node_used", "node %s Used %s (scheduler vs recomputed)", nn, d)
 		}
